@@ -97,7 +97,7 @@ VARIABLES H,       \* history since the last Reset: graphs of the uninterpreted 
 
 svars == <<H, P, call>>
 
-Empty == [cs |-> <<>>, enc |-> <<>>, dec |-> <<>>, sd |-> <<>>, ky |-> <<>>]
+Empty == [cs |-> <<>>, enc |-> <<>>, dec |-> <<>>, sfp |-> <<>>, sd |-> <<>>, ky |-> <<>>]
 Hs    == {H, P}
 
 Agree(f, x, y) == x \in DOMAIN f => f[x] = y                   \* y is consistent with f being a function
@@ -128,12 +128,30 @@ DecCall(t, eb, c, out, sd) ==
                     packOk |-> wf => eb = EntOf(t),
                     csOk   |-> wf => \A X \in Hs : Agree(X.cs, eb, c),
                     exp    |-> DecReply(t, g),
-                    same   |-> \A X \in Hs : Agree(X.dec, t, res),
+                    same   |-> \A X \in Hs : Agree(X.dec, t, res) /\ Agree(X.sfp, t, sd),
                     rt     |-> out.ok => \A X \in Hs : \A e \in DOMAIN X.enc : X.enc[e] = t => out.d = e,
                     sdSame |-> (out.ok /\ sd.ok) => \A X \in Hs : Agree(X.sd, out.d, sd.s),
                     sdInj  |-> (out.ok /\ sd.ok) => \A X \in Hs : Inj(X.sd, out.d, sd.s)]
         /\ H' = [H EXCEPT !.cs = g, !.dec = Put(@, t, res),
                           !.sd = IF out.ok /\ sd.ok THEN Put(@, out.d, sd.s) ELSE @]
+        /\ P' = P
+
+\* SeedFromPhrase ALONE (the public entry point, no decode call next to it) on a phrase with tokens t
+\* returned sd = [ok, s].  The entropy behind a successful result is the specified witness.
+SfpCall(t, eb, c, sd) ==
+    LET wf  == WellFormed(t)
+        g   == IF wf THEN Put(H.cs, eb, c) ELSE H.cs
+        exp == DecReply(t, g)
+    IN  /\ call' = [op |-> "Sfp", t |-> t, sd |-> sd, wf |-> wf,
+                    packOk |-> wf => eb = EntOf(t),
+                    csOk   |-> wf => \A X \in Hs : Agree(X.cs, eb, c),
+                    exp    |-> exp,
+                    same   |-> \A X \in Hs : /\ Agree(X.sfp, t, sd)
+                                             /\ t \in DOMAIN X.dec => X.dec[t].sd = sd,
+                    sdSame |-> (sd.ok /\ exp.ok) => \A X \in Hs : Agree(X.sd, exp.e, sd.s),
+                    sdInj  |-> (sd.ok /\ exp.ok) => \A X \in Hs : Inj(X.sd, exp.e, sd.s)]
+        /\ H' = [H EXCEPT !.cs = g, !.sfp = Put(@, t, sd),
+                          !.sd = IF sd.ok /\ exp.ok THEN Put(@, exp.e, sd.s) ELSE @]
         /\ P' = P
 
 \* a freshly generated phrase (NewSeedPhrase) has tokens t; canon = it is in canonical single-space form
@@ -172,26 +190,30 @@ ResetCall(pin) ==
 (* Part 3: the property, clause by clause                                  *)
 
 \* the caller's side of the contract (a failure is a harness defect, never a finding)
-HarnessPacking == call.op \in {"Dec", "New"} => call.packOk
-CSFunctional   == call.op \in {"Enc", "Dec", "New"} => call.csOk
+HarnessPacking == call.op \in {"Dec", "Sfp", "New"} => call.packOk
+CSFunctional   == call.op \in {"Enc", "Dec", "Sfp", "New"} => call.csOk
 
 \* "every entropy encodes to a NW-word phrase ..."
 EncCorrect       == call.op = "Enc" => (call.out.wf /\ call.out.w = call.exp)
 EncDeterministic == call.op = "Enc" => call.det
 \* "... every phrase decodes iff its checksum is correct ..." / "malformed phrases are rejected"
-MalformedRejected  == (call.op = "Dec" /\ ~call.wf) => ~call.out.ok
-DecodesIffChecksum == call.op = "Dec" => (call.out.ok <=> call.exp.ok)
+MalformedRejected  == /\ (call.op = "Dec" /\ ~call.wf) => ~call.out.ok
+                      /\ (call.op = "Sfp" /\ ~call.wf) => ~call.sd.ok
+DecodesIffChecksum == /\ call.op = "Dec" => (call.out.ok <=> call.exp.ok)
+                      /\ call.op = "Sfp" => (call.sd.ok <=> call.exp.ok)
 DecodedEntropy     == (call.op = "Dec" /\ call.out.ok /\ call.exp.ok) => call.out.d = call.exp.e
 \* "... that decodes back to the same entropy" / "... and then re-encodes to itself" (observational:
 \* these two compare recorded calls with each other and do not use Words at all)
 RoundTrip        == call.op = "Dec" => call.rt
 ReencodeIdentity == call.op = "Enc" => call.reenc
 \* "whitespace variations do not change the result": the result is a function of the token sequence
-WhitespaceInvariant == call.op = "Dec" => call.same
+\* (the histories also make it "a function of the call alone": the same tokens decoded after different
+\* earlier calls, by decode or by SeedFromPhrase alone, must give the same result)
+WhitespaceInvariant == call.op \in {"Dec", "Sfp"} => call.same
 \* the public SeedFromPhrase succeeds exactly when the phrase decodes; seed = F(entropy), F injective
 SeedAgrees     == call.op = "Dec" => (call.sd.ok <=> call.out.ok)
-SeedFunctional == call.op = "Dec" => call.sdSame
-SeedInjective  == call.op = "Dec" => call.sdInj
+SeedFunctional == call.op \in {"Dec", "Sfp"} => call.sdSame
+SeedInjective  == call.op \in {"Dec", "Sfp"} => call.sdInj
 \* "the same phrase and index always derive the same key and address" (+ index/seed sensitivity)
 SameArgsSameKey         == call.op = "Key" => call.same
 DistinctArgsDistinctKey == call.op = "Key" => call.inj
